@@ -195,8 +195,8 @@ class SqwBuilder:
             data_range=np.vstack(
                 [
                     (
-                        sc.to_unit(row.min(), unit).value,
-                        sc.to_unit(row.max(), unit).value,
+                        sc.to_unit(row.min().to(dtype="float64"), unit).value,
+                        sc.to_unit(row.max().to(dtype="float64"), unit).value,
                     )
                     for row, unit in zip(
                         pix_wrap.row_data, pix_wrap.row_units, strict=True
@@ -452,7 +452,11 @@ class _PixWrap:
             for i_row, (row, unit) in enumerate(
                 zip(self.row_data, self.row_units, strict=True)
             ):
+                # Convert in float64: integer rows would otherwise be
+                # converted with integer arithmetic and lose their fraction.
                 buffer[:n, i_row] = sc.to_unit(
-                    row[offset : offset + chunk_size], unit, copy=False
+                    row[offset : offset + chunk_size].to(dtype="float64", copy=False),
+                    unit,
+                    copy=False,
                 ).values
             sqw_io.write_array(buffer[:n])
